@@ -21,7 +21,8 @@ BOUNDS = {'quick': {'n': 4, 'variants': 4, 'sample_n': 5, 'stride': 16, 'random'
 FLOORS = {'quick': {'enum': 110000, 'enum-sampled': 10000, 'random': 8000}, 'thorough': {'enum': 4000000, 'enum-sampled': 150000, 'random': 250000}}
 REQUIRED_MONITORS = ['oracle:tag-stream', 'oracle:ast']
 
-PARENTS = ['ul', 'ol', 'table', 'tbody', 'thead', 'tfoot', 'tr', 'select', 'optgroup', 'p', 'span', 'em', 'div', 'section', 'x-foo', 'li', 'td', 'a', 'b']
+PARENTS = ['ul', 'ol', 'table', 'tbody', 'thead', 'tfoot', 'tr', 'select', 'optgroup', 'p', 'span', 'em', 'div', 'section', 'x-foo', 'li', 'td', 'a', 'b',
+           'UL', 'Table', 'TR', 'P', 'Select', 'EM', 'OL', 'tBody', 'OptGroup', 'Span', 'DIV', 'h2', 'ns:ul', 'ul-x', 'x_ul']     # tag names are case-insensitive for the implicit-name table
 LEAVES = ['div', 'p', 'span', 'li', 'td', 'x-foo', 'ns:tag', 'h1', 'i', 'strong', 'article', 'main', 'q', 'code', 'option', 'tr']
 VOIDS = ['br', 'hr', 'x-v', 'wbr']
 STYLES = ['html', 'xhtml', 'xml']
